@@ -368,7 +368,10 @@ func VerifURLToken() {
 	tail := vBytes("b", n)
 	for i := range tail {
 		c := tail[i]
-		vAssume(c == 'a' || c == ' ' || c == '\\' || c == ')' || c == '(' || c == '"' || c == 'd')
+		vAssume(c == 'a' || c == ' ' || c == '\\' || c == ')' || c == '(' || c == '"' || c == 'd' || c == 0xC3 || c == 0xA9 || c == 0x7F || c == 0x80)
+	}
+	for i := 0; i+1 < n; i++ {
+		vAssume(!(tail[i] == '\\' && tail[i+1] >= 0x80)) // escaped non-ASCII: the escape reference here is ASCII only
 	}
 	src := append([]byte("url("), tail...)
 	i := 4
